@@ -81,6 +81,8 @@ type Summary struct {
 	Extra        map[string]int `json:"extra"`
 	WallMS       int64          `json:"wall_ms"`
 	MaxStepsRun  int            `json:"max_steps_in_a_run"`
+	SimNanos     int64          `json:"sim_nanos"`
+	TimersFired  int64          `json:"timers_fired"`
 }
 
 // Run is one prepared execution of a harness.
@@ -259,6 +261,8 @@ func generate(t *testing.T, h Harness, job *Job, enc *json.Encoder) {
 		sum.Steps += int64(o.res.Steps)
 		sum.Switches += int64(o.res.Switches)
 		sum.Goroutines += int64(o.res.Goroutines)
+		sum.SimNanos += o.res.SimNanos
+		sum.TimersFired += int64(o.res.TimersFired)
 		if o.res.Steps > sum.MaxStepsRun {
 			sum.MaxStepsRun = o.res.Steps
 		}
